@@ -262,7 +262,10 @@ func gocvSMT(v reflect.Value, bv bool) string {
 	case reflect.Bool:
 		if v.Bool() { return "true" }
 		return "false"
-	case reflect.Int, reflect.Int8, reflect.Int16, reflect.Int32, reflect.Int64:
+	case reflect.Int:
+		if v.Int() < 0 { return "(- " + strings.TrimPrefix(strconv.FormatInt(v.Int(), 10), "-") + ")" }
+		return strconv.FormatInt(v.Int(), 10)
+	case reflect.Int8, reflect.Int16, reflect.Int32, reflect.Int64:
 		if bv { return fmt.Sprintf("(_ bv%d %d)", uint64(v.Int())&(1<<uint(v.Type().Bits())-1|uint64(v.Int())*0) , v.Type().Bits()) }
 		if v.Int() < 0 { return "(- " + strings.TrimPrefix(strconv.FormatInt(v.Int(), 10), "-") + ")" }
 		return strconv.FormatInt(v.Int(), 10)
@@ -312,7 +315,7 @@ func tryReplay(prog *Program, r *OblResult, repo string) (bool, string) {
 	if model == nil {
 		return false, "cannot parse model"
 	}
-	rc := &replayCtx{imports: map[string]string{}, pkg: fn.Pkg.Pkg, strs: map[string]string{}, mode: r.Fn.VC.mode}
+	rc := &replayCtx{imports: map[string]string{}, pkg: fnPkg(fn), strs: map[string]string{}, mode: r.Fn.VC.mode}
 	var args []string
 	var fixes []string
 	for _, mv := range r.O.Inputs {
@@ -353,7 +356,7 @@ func tryReplay(prog *Program, r *OblResult, repo string) (bool, string) {
 		lhs = append(lhs, fmt.Sprintf("r%d", i))
 	}
 	var b bytes.Buffer
-	fmt.Fprintf(&b, "package %s\n\nimport (\n\t\"fmt\"\n\t\"reflect\"\n\t\"strconv\"\n\t\"strings\"\n\t\"testing\"\n", fn.Pkg.Pkg.Name())
+	fmt.Fprintf(&b, "package %s\n\nimport (\n\t\"fmt\"\n\t\"reflect\"\n\t\"strconv\"\n\t\"strings\"\n\t\"testing\"\n", fnPkg(fn).Name())
 	for path, alias := range rc.imports {
 		fmt.Fprintf(&b, "\t%s %q\n", alias, path)
 	}
@@ -379,7 +382,7 @@ func tryReplay(prog *Program, r *OblResult, repo string) (bool, string) {
 	fmt.Fprintf(&b, "\tfmt.Println(\"GOCV-DONE\")\n}\n")
 	tmp, _ := os.MkdirTemp("", "gocv-replay")
 	defer os.RemoveAll(tmp)
-	pkgDir := filepath.Join(repo, strings.TrimPrefix(fn.Pkg.Pkg.Path(), strings.TrimSuffix(modPrefix, "/")))
+	pkgDir := filepath.Join(repo, strings.TrimPrefix(fnPkg(fn).Path(), strings.TrimSuffix(modPrefix, "/")))
 	testFile := filepath.Join(pkgDir, "gocv_replay_test.go")
 	src := filepath.Join(tmp, "replay_test.go")
 	os.WriteFile(src, b.Bytes(), 0o644)
